@@ -49,6 +49,8 @@ RULES = {
     'R8': 'closure contract: parameter types, named result and ensures added to a closure literal, body kept',
     'R9': 'Verus-only additions: ghost lets, proof blocks, reject_recursive_types, PartialEqSpecImpl',
     'B1': 'block contract: statement range wrapped in a fn whose parameters are its free variables; `self.f` renamed to parameter `f`',
+    'R10': 'assert_ne!(a, b) / assert_eq!(a, b) -> assert!(a != b) / assert!(a == b): same panic condition (Verus has no spec for core::panicking::assert_failed)',
+    'B2': 'a statement range that is under contract as a block of its own (same anchors) is replaced by a call to a contract-only stand-in',
     'T1': 'type-level rewrite needed by the verifier front end (recorded verbatim)',
 }
 
@@ -225,6 +227,26 @@ class Renderer:
                 else:
                     edits.append(Edit(cpos, bend, typed, org))
                 self.rule('R8', '%s: closure after %r typed (%s) -> (%s); body kept: %s' % (label, anchor, mm.group(3), mm.group(4), ' '.join(body.split())[:80]))
+            elif k == 'replace':
+                # B2: the statement range from anchor <a> to anchor <b> (a block that is under contract in its own right, in this or the
+                # other back end) is replaced by the content (a call to the contract-only stand-in of that block)
+                mm = re.match(r'\s*from\s+', arg)
+                if not mm:
+                    raise ExtractError('bad replace directive: %r' % arg)
+                a_, rest = parse_quoted(arg[mm.end():])
+                m2 = re.match(r'\s*(?:#(\d+))?\s*to\s+', rest)
+                if not m2:
+                    raise ExtractError('bad replace directive: %r' % arg)
+                b_, rest2 = parse_quoted(rest[m2.end():])
+                m3 = re.fullmatch(r'\s*(?:#(\d+))?\s*', rest2)
+                ha = s.find_anchor(a_, lo, hi, int(m2.group(1)) if m2.group(1) else None)
+                if len(ha) != 1:
+                    raise ExtractError('%s: replace from-anchor %r matches %d times' % (label, a_, len(ha)))
+                hb = s.find_anchor(b_, ha[0], hi, int(m3.group(1)) if m3 and m3.group(1) else None)
+                if len(hb) != 1:
+                    raise ExtractError('%s: replace to-anchor %r matches %d times' % (label, b_, len(hb)))
+                edits.append(Edit(ha[0], hb[0] + len(b_), content, org))
+                self.rule('B2', '%s: lines %d-%d (block under its own contract) replaced by a call to its stand-in' % (label, s.line_of(ha[0]), s.line_of(hb[0])))
             elif k == 'start':
                 edits.append(Edit(lo, lo, '\n' + content + '\n', org))
             elif k == 'finish':
@@ -263,6 +285,17 @@ class Renderer:
             edits.append(Edit(a, c + 1, '()', ('drop', label, s.line_of(a))))
             self.meta['dropped'].append('%s:%d %s' % (s.path, s.line_of(a), ' '.join(s.text[a:c + 1].split())[:120]))
             self.rule('R1', '%s: log macro at %s:%d' % (label, s.path, s.line_of(a)))
+        # built-in R10: assert_ne!/assert_eq! with two plain arguments
+        for mm in re.finditer(r'\bassert_(ne|eq)!\s*\(', s.m[lo:hi]):
+            a = lo + mm.start()
+            o = lo + mm.end() - 1
+            c = match_close(s.m, o)
+            j = depth0_find(s.m, o + 1, c, ',')
+            if j < 0 or depth0_find(s.m, j + 1, c, ',') >= 0:
+                raise ExtractError('%s: assert_%s! with a message is not supported' % (label, mm.group(1)))
+            x, y = s.text[o + 1:j].strip(), s.text[j + 1:c].strip()
+            edits.append(Edit(a, c + 1, 'assert!(%s %s %s)' % (x, '!=' if mm.group(1) == 'ne' else '==', y), ('subst', label, s.line_of(a))))
+            self.rule('R10', '%s: assert_%s!(%s, %s)' % (label, mm.group(1), x, y))
         return edits
 
     def render_fn(self, d):
@@ -312,7 +345,7 @@ class Renderer:
             'kind': 'fn', 'file': rel, 'path': label, 'impl': f.get('impl', ''), 'signature': real_sig,
             'lines': [s.line_of(f['fn_kw']), s.line_of(f['body_close'])],
             'sha256': hashlib.sha256((real_sig + body_txt).encode()).hexdigest()[:16],
-            'splices': len([x for x in subs if x['kind'] in ('loop', 'before', 'after', 'contract', 'start', 'closure', 'finish')]),
+            'splices': len([x for x in subs if x['kind'] in ('loop', 'before', 'after', 'contract', 'start', 'closure', 'finish', 'replace')]),
         })
         return pieces
 
@@ -394,12 +427,15 @@ class Renderer:
                 keep = [x.strip() for x in sd['arg'].split(',') if x.strip()]
         edits += self.common_edits(s, lo, hi, [x for x in d['subs'] if x['kind'] in ('subst', 'before', 'after')], label)
         # strip attributes and doc comments inside the item (R1), `pub` (R3)
-        for mm in re.finditer(r'(?m)^[ \t]*#\[', s.m[lo:hi]):
+        for mm in re.finditer(r'(?m)(^[ \t]*)?#\[', s.m[lo:hi]):
             o = lo + mm.end() - 1
             c = match_close(s.m, o)
             e = c + 1
-            if s.text[e:e + 1] == '\n':
-                e += 1
+            if mm.group(1) is not None and s.text[e:e + 1] == '\n':
+                e += 1                      # attribute on its own line: drop the line
+            else:
+                while s.text[e:e + 1] == ' ':
+                    e += 1                  # inline attribute (e.g. `#[source] io::Error`)
             edits.append(Edit(lo + mm.start(), e, '', ('drop', label, 0)))
         for mm in re.finditer(r'(?m)^[ \t]*///.*\n', s.text[lo:hi]):
             edits.append(Edit(lo + mm.start(), lo + mm.end(), '', ('drop', label, 0)))
